@@ -44,6 +44,13 @@ type PropConfig struct {
 	Include      []string `json:"include"` // keep only obligations whose name matches one of these regexps (covers are always kept)
 	Exclude      []string `json:"exclude"`
 	Parts        []string `json:"parts"` // further profile configs (props/<name>.json) run as part of this property
+	Guarded      map[string]GuardSpec `json:"guarded"` // lock discipline: heap region -> condition that must hold at every read / write of it (o = the owning object)
+}
+
+// GuardSpec: contract expressions over the ghost lock state; "o" is bound to the object whose field is accessed.
+type GuardSpec struct {
+	Read  string `json:"read"`
+	Write string `json:"write"`
 }
 
 const lemmaPrelude = `(set-logic ALL)
@@ -104,6 +111,25 @@ func mkProfile(cfg *PropConfig) *Profile {
 	}
 	for _, k := range cfg.Noop {
 		p.Noop[expandKey(k)] = true
+	}
+	p.Guarded = map[string][2]*Node{}
+	for reg, g := range cfg.Guarded {
+		var pair [2]*Node
+		if g.Read != "" {
+			if n, err := ParseExpr(g.Read); err == nil {
+				pair[0] = n
+			} else {
+				panic(err)
+			}
+		}
+		if g.Write != "" {
+			if n, err := ParseExpr(g.Write); err == nil {
+				pair[1] = n
+			} else {
+				panic(err)
+			}
+		}
+		p.Guarded[reg] = pair
 	}
 	return p
 }
